@@ -50,6 +50,8 @@ const (
 	LJoin
 	LStdJoin
 	LFmtMulti
+	LStdJoin1
+	LUserMulti1
 	// wrappers
 	WMessage
 	WWrap
@@ -81,14 +83,15 @@ const (
 	WUserFmt
 	WUserSafeFmt
 	WHandledDomain
+	WNewfWExtra
 	numKinds
 )
 
 var kindNames = [...]string{"New", "NewfUnsafe", "NewfSafe", "Std", "Pkg", "CtxCanceled", "CtxDeadline", "OsNotExist", "EOF", "Errno", "Unimpl", "Assert",
-	"UserPlain", "UserFmt", "UserSafeFmt", "UserNonComparable", "UserIs", "Proto", "Handled", "HandledMsg", "Join", "StdJoin", "FmtMulti",
+	"UserPlain", "UserFmt", "UserSafeFmt", "UserNonComparable", "UserIs", "Proto", "Handled", "HandledMsg", "Join", "StdJoin", "FmtMulti", "StdJoin1", "UserMulti1",
 	"WithMessage", "Wrap", "Wrapf", "NewfW", "WithStack", "WithHint", "WithDetail", "WithSafeDetails", "WithTelemetry", "WithDomain", "WithIssueLink", "WithTags",
 	"WithAssertionFailure", "Mark", "WithSecondary", "HTTPCode", "GrpcCode", "PkgWithMessage", "PkgWithStack", "FmtPrefix", "FmtSuffix", "PathError", "LinkError",
-	"SyscallError", "OpError", "UserPrefix", "UserFull", "UserFmt", "UserSafeFmt", "HandledInDomain"}
+	"SyscallError", "OpError", "UserPrefix", "UserFull", "UserFmt", "UserSafeFmt", "HandledInDomain", "NewfWExtra"}
 
 func (k Kind) String() string { return kindNames[k] }
 
@@ -97,11 +100,11 @@ var (
 	LibLeaves     = []Kind{LNew, LNewfUnsafe, LNewfSafe, LUnimpl, LAssert}
 	ForeignLeaves = []Kind{LStd, LPkg, LCtxCanceled, LCtxDeadline, LOsNotExist, LEOF, LErrno, LUserPlain, LUserFmt, LUserSafeFmt, LUserNonComparable, LUserIs, LProto}
 	BarrierLeaves = []Kind{LHandled, LHandledMsg}
-	MultiLeaves   = []Kind{LJoin, LStdJoin, LFmtMulti}
+	MultiLeaves   = []Kind{LJoin, LStdJoin, LFmtMulti, LStdJoin1, LUserMulti1}
 	SimpleLeaves  = []Kind{LNew, LNewfUnsafe, LStd, LUserPlain}
 	BranchLeaves  = []Kind{LNew, LNewfUnsafe, LStd, LUserPlain, LCtxCanceled}
 
-	MsgWrappers     = []Kind{WMessage, WWrap, WWrapf, WNewfW}
+	MsgWrappers     = []Kind{WMessage, WWrap, WWrapf, WNewfW, WNewfWExtra}
 	AnnotWrappers   = []Kind{WStack, WHint, WDetail, WSafeDetails, WTelemetry, WDomain, WIssueLink, WTags, WAssertFail, WMark, WSecondary, WHTTP, WGrpc}
 	ForeignWrappers = []Kind{WPkgMsg, WPkgStack, WFmtPrefix, WFmtSuffix, WPathError, WLinkError, WSyscallError, WOpError, WUserPrefix, WUserFull, WUserFmt, WUserSafeFmt}
 )
@@ -204,6 +207,15 @@ func (w *UserWSafeFmt) SafeFormatError(p errors.Printer) error {
 	return w.Cause
 }
 
+// UserMulti is an unregistered multi-cause type.
+type UserMulti struct {
+	Msg  string
+	Errs []error
+}
+
+func (m *UserMulti) Error() string   { return m.Msg }
+func (m *UserMulti) Unwrap() []error { return m.Errs }
+
 type addr struct{ s string }
 
 func (a addr) Network() string { return "tcp" }
@@ -237,7 +249,8 @@ type B struct {
 	HTTP    int      // outermost HTTP code or 0
 	Grpc    uint32
 	HasGrpc bool
-	Domain  string // model of GetDomain: "" = not tracked
+	Domain  string            // model of GetDomain: "" = not tracked
+	Link    *errors.IssueLink // the issue link, if the outermost layer is one
 }
 
 // StrS draws a string for a channel the library treats as safe, StrU for an unsafe channel.
@@ -365,6 +378,17 @@ func (g *G) LeafOf(name string, k Kind) *B {
 		b.Multi = []*B{x, y}
 		b.Unsafe = append(append([]string{}, x.Unsafe...), y.Unsafe...)
 		b.Safe = append(append([]string{}, x.Safe...), y.Safe...)
+	case LStdJoin1:
+		// a multi-cause error with exactly one cause
+		x := g.Leaf(name+".a", BranchLeaves)
+		b.Err, b.Text = stderrors.Join(nil, x.Err), x.Text
+		b.Multi = []*B{x}
+		b.Unsafe, b.Safe = x.Unsafe, x.Safe
+	case LUserMulti1:
+		x := g.Leaf(name+".a", BranchLeaves)
+		b.Err, b.Text = &UserMulti{Msg: "um", Errs: []error{x.Err}}, "um"
+		b.Multi = []*B{x}
+		b.Unsafe, b.Safe = x.Unsafe, x.Safe
 	default:
 		panic("gen: not a leaf kind " + k.String())
 	}
@@ -436,13 +460,33 @@ func (g *G) WrapOf(name string, c *B, k Kind) *B {
 		b.Domain = "error domain: \"" + m + "\""
 	case WIssueLink:
 		m := g.StrS(name + ".m")
-		b.Err = errors.WithIssueLink(e, errors.IssueLink{IssueURL: m, Detail: "d"})
+		var link errors.IssueLink
+		switch g.V.Choice(name+".link", 3) {
+		case 0:
+			link = errors.IssueLink{IssueURL: m, Detail: "d"}
+		case 1:
+			link = errors.IssueLink{IssueURL: m}
+		case 2:
+			link = errors.IssueLink{Detail: m} // detail only
+		}
+		b.Err = errors.WithIssueLink(e, link)
 		b.Safe = append(append([]string{}, c.Safe...), m)
+		b.Link = &link
 	case WTags:
 		m := g.StrU(name + ".m")
-		ctx := logtags.AddTag(context.Background(), "tk", m)
+		var ctx context.Context
+		switch g.V.Choice(name+".tagkind", 3) {
+		case 0:
+			ctx = logtags.AddTag(context.Background(), "tk", m)
+			b.Unsafe = append(append([]string{}, c.Unsafe...), m)
+		case 1:
+			// a value marked safe, plus a tag without value
+			ctx = logtags.AddTag(logtags.AddTag(context.Background(), "tk", errors.Safe(m)), "flag", nil)
+		case 2:
+			ctx = logtags.AddTag(logtags.AddTag(context.Background(), "n", 7), "tk", m)
+			b.Unsafe = append(append([]string{}, c.Unsafe...), m)
+		}
 		b.Err = errors.WithContextTags(e, ctx)
-		b.Unsafe = append(append([]string{}, c.Unsafe...), m)
 	case WAssertFail:
 		b.Err = errors.WithAssertionFailure(e)
 	case WMark:
@@ -515,6 +559,14 @@ func (g *G) WrapOf(name string, c *B, k Kind) *B {
 		b.HTTP, b.HasGrpc, b.Grpc = 0, false, 0
 		b.Safe = append(append([]string{}, c.Safe...), m)
 		b.Domain = "error domain: \"" + m + "\""
+	case WNewfWExtra:
+		// %w plus a further error argument that carries safe information of its own
+		m := g.StrU(name + ".m")
+		tok := g.StrS(name + ".tok")
+		other := errors.WithTelemetry(stderrors.New("o"), tok)
+		b.Err, b.Text = errors.Newf("%s: %w (%v)", m, e, other), m+": "+c.Text+" (o)"
+		b.Unsafe = append(append([]string{}, c.Unsafe...), m)
+		b.Safe = append(append([]string{}, c.Safe...), tok)
 	default:
 		panic("gen: not a wrapper kind " + k.String())
 	}
@@ -537,4 +589,26 @@ func (g *G) Build(name string, d int, leaves, wrappers []Kind) *B {
 func (g *G) BuildUpTo(name string, d int, leaves, wrappers []Kind) *B {
 	n := 1 + g.V.Choice(name+".depth", d)
 	return g.Build(name, n, leaves, wrappers)
+}
+
+// Representatives: one kind per behaviour class (used for the inner layers of
+// deeper recipes and for the quick tier).
+var (
+	RepLeaves   = []Kind{LNew, LNewfUnsafe, LStd, LCtxCanceled, LErrno, LUserPlain, LUserIs, LUserNonComparable, LHandled, LHandledMsg, LJoin, LStdJoin1, LFmtMulti}
+	RepWrappers = []Kind{WWrap, WWrapf, WNewfW, WHint, WDomain, WTags, WMark, WSecondary, WGrpc, WIssueLink, WFmtSuffix, WUserFull, WUserPrefix, WPathError, WPkgMsg}
+)
+
+// BuildTiered draws a depth in 1..d, a leaf, inner wrappers and an outermost
+// wrapper drawn from (possibly larger) kind sets of their own.
+func (g *G) BuildTiered(name string, d int, leaves, inner, outer []Kind) *B {
+	n := 1 + g.V.Choice(name+".depth", d)
+	b := g.Leaf(name+".0", leaves)
+	for i := 1; i < n; i++ {
+		set := inner
+		if i == n-1 {
+			set = outer
+		}
+		b = g.Wrap(fmt.Sprintf("%s.%d", name, i), b, set)
+	}
+	return b
 }
